@@ -104,6 +104,146 @@ def spec_particles(spec):
     raise ValueError(spec)
 
 
+# ----------------------------------------------------------------------------- mutation alphabet (shared with C05)
+def reach(g):
+    out = [g]
+    if hasattr(g, "tgate"):
+        out += reach(g.tgate)
+    if hasattr(g, "tgates"):
+        for t in g.tgates:
+            out += reach(t)
+    return out
+
+
+def follow(g, path):
+    """the object reached from g through target_gate() / target_gates()[i]"""
+    for i in path:
+        if hasattr(g, "tgate"):
+            g = g.target_gate()
+            assert i == 0
+        else:
+            g = g.target_gates()[i]
+    return g
+
+
+def apply_mutation(obj, mut, F):
+    """one mutation of a live gate object: public mutators (on / set_control), attribute assignment, in-place write
+    into a list-valued attribute; JSON-able descriptor"""
+    k = mut[0]
+    if k == "on1":
+        obj.on(qubit(F, mut[1]))
+    elif k == "attr_qubit":
+        obj.qubit = qubit(F, mut[1])
+    elif k == "theta":
+        obj.theta = mut[1]
+    elif k == "phi":
+        obj.phi = mut[1]
+    elif k == "q1":
+        obj.q1 = qubit(F, mut[1])
+    elif k == "q2":
+        obj.q2 = qubit(F, mut[1])
+    elif k == "on2":
+        obj.on(qubit(F, mut[1]), qubit(F, mut[2]))
+    elif k == "onlist":
+        obj.on([qubit(F, p) for p in mut[1]])
+    elif k == "onargs":
+        obj.on(*[qubit(F, p) for p in mut[1]])
+    elif k == "set_control":
+        obj.set_control([qubit(F, p) for p in mut[1]])
+    elif k == "set_control_args":
+        obj.set_control(*[qubit(F, p) for p in mut[1]])
+    elif k == "ctrl_state":
+        obj.ctrl_state = list(mut[1])
+    elif k == "ctrl_state_inplace":
+        obj.ctrl_state[mut[1]] ^= 1
+    elif k == "control_qubits_inplace":
+        obj.control_qubits[mut[1]] = qubit(F, mut[2])
+    elif k == "prtcl_inplace":
+        obj.prtcl[mut[1]] = qubit(F, mut[2])
+    elif k == "mat":
+        obj.mat = np.array([[complex(*e) for e in row] for row in mut[1]])
+    elif k == "ntheta":
+        obj.ntheta = np.array(mut[1], dtype=float)
+    elif k == "tgate":
+        obj.tgate = build_gate(mut[1], F)
+    elif k == "tgates_k":
+        obj.tgates[mut[1]] = build_gate(mut[2], F)
+    else:
+        raise ValueError(mut)
+
+
+def jcopy(x):
+    if isinstance(x, (list, tuple)):
+        return [jcopy(y) for y in x]
+    return x
+
+
+def sub_spec(spec, path):
+    for i in path:
+        spec = spec[3] if spec[0] == "C" else spec[2][i]
+    return spec
+
+
+def spec_paths(spec):
+    """paths (through target_gate()/target_gates()[i]) of all objects reachable from a gate built from spec"""
+    out = [[]]
+    if spec[0] == "C":
+        out += [[0] + p for p in spec_paths(spec[3])]
+    elif spec[0] == "Mux":
+        for i, t in enumerate(spec[2]):
+            out += [[i] + p for p in spec_paths(t)]
+    return out
+
+
+def mutate_spec(spec, path, mut):
+    """the same mutation on the VALUE (the JSON spec a fresh gate is built from); returns the new spec"""
+    spec = jcopy(spec)
+    s = sub_spec(spec, path)
+    k, kind = mut[0], s[0]
+    one = kind in ("I", "X", "Y", "Z", "H", "S", "Sdg", "T", "Tdg", "Sx")
+    if k in ("on1", "attr_qubit"):
+        s[1 if one else 2] = jcopy(mut[1])
+    elif k in ("theta", "phi"):
+        s[1] = mut[1]
+    elif k == "q1":
+        s[2] = jcopy(mut[1])
+    elif k == "q2":
+        s[3] = jcopy(mut[1])
+    elif k == "on2":
+        s[1], s[2] = jcopy(mut[1]), jcopy(mut[2])
+    elif k in ("onlist", "onargs"):
+        s[2] = jcopy(mut[1])
+    elif k in ("set_control", "set_control_args"):
+        s[2 if kind == "C" else 1] = jcopy(mut[1])
+    elif k == "ctrl_state":
+        s[1] = list(mut[1])
+    elif k == "ctrl_state_inplace":
+        s[1][mut[1]] ^= 1
+    elif k == "control_qubits_inplace":
+        s[2 if kind == "C" else 1][mut[1]] = jcopy(mut[2])
+    elif k == "prtcl_inplace":
+        s[2][mut[1]] = jcopy(mut[2])
+    elif k in ("mat", "ntheta"):
+        s[1] = jcopy(mut[1])
+    elif k == "tgate":
+        s[3] = jcopy(mut[1])
+    elif k == "tgates_k":
+        s[2][mut[1]] = jcopy(mut[2])
+    else:
+        raise ValueError(mut)
+    return spec
+
+
+def spec_consistent(spec):
+    """False when some multiplexer below has targets that do not list the same particles (particles() asserts)"""
+    if spec[0] == "C":
+        return spec_consistent(spec[3])
+    if spec[0] == "Mux":
+        return all(spec_consistent(t) for t in spec[2]) and \
+            all(spec_particles(t) == spec_particles(spec[2][0]) for t in spec[2])
+    return True
+
+
 def wire_of(sizes, order, p):
     """independent reference for map_particle_to_wire: fields listed in `order` (indices into sizes)"""
     off = 0
@@ -274,6 +414,114 @@ def oracle_gate(ctx, sizes, order, spec, desc):
     return 2, raw, D
 
 
+def expected_query(sizes, order, cur):
+    """what as_circuit_matrix must do for the gate VALUE `cur` over the fields listed in `order`:
+    ("AssertionError" | "RuntimeError" | "ok", wires)"""
+    if not spec_consistent(cur):
+        return "AssertionError", None            # particles() of a multiplexer with differing targets
+    ws = [wire_of(sizes, order, p) for p in spec_particles(cur)]
+    if any(w < 0 for w in ws):
+        return "RuntimeError", ws                # particle of an unlisted field
+    if len(set(ws)) != len(ws):
+        return "AssertionError", ws              # a wire used twice
+    return "ok", ws
+
+
+def oracle_gate_history(ctx, sizes, spec, steps, desc, collect=None):
+    """a history on ONE gate object: as_circuit_matrix queries (["q", order]) interleaved with mutations of the object
+    and of the objects reachable from it (["m", path, mut]) and with the caller overwriting a matrix it got back
+    (["scribble", k]).  Every query is compared with the independent reference for the gate's CURRENT value (a gate
+    built afresh from the value, embedded by einsum); every matrix handed out earlier must keep its entries.
+    collect: list receiving (order, current spec, raw triples) of the successful queries"""
+    F = mk_fields(sizes)
+    try:
+        g = build_gate(spec, F)
+    except Exception as e:
+        ctx.fail("gate-history:construction-crash:" + type(e).__name__, desc, "gate", repr(e)[:200])
+        return False
+    cur = jcopy(spec)
+    handed = []        # [returned object, dense snapshot at return time, step index]
+    scribbled = []     # matrices the caller has overwritten
+
+    def handed_intact(when):
+        for out, snap, at in handed:
+            try:
+                now = dense(out)
+            except Exception:
+                now = None
+            if now is None or now.shape != snap.shape or not np.array_equal(now, snap):
+                ctx.fail("as_circuit_matrix:matrix-returned-earlier-changed-by-later-call", desc,
+                         "the matrix returned at step %d keeps its entries" % at, "changed at step %d" % when)
+                return False
+        return True
+
+    for n, st in enumerate(steps):
+        if st[0] == "m":
+            try:
+                apply_mutation(follow(g, st[1]), st[2], F)
+            except Exception as e:
+                ctx.fail("gate-history:mutator-crash:" + type(e).__name__, desc, "mutation applied", repr(e)[:200])
+                return False
+            cur = mutate_spec(cur, st[1], st[2])
+        elif st[0] == "scribble":
+            if st[1] < len(handed):
+                out = handed[st[1]][0]
+                out.data[:] = 7            # the caller owns what it got back
+                scribbled.append(out)
+                for h in handed:           # the same object may have been handed out more than once
+                    if h[0] is out:
+                        h[1] = dense(out)
+        elif st[0] == "q":
+            order = st[1]
+            fields = [F[i] for i in order]
+            exp, ws = expected_query(sizes, order, cur)
+            nw = sum(sizes[i] for i in order)
+            with Spy() as spy:
+                try:
+                    out = g.as_circuit_matrix(fields)
+                    raw, got = spy.last, "ok"
+                except (AssertionError, RuntimeError) as e:
+                    out, raw, got = None, None, type(e).__name__
+                except Exception as e:
+                    ctx.fail("as_circuit_matrix:crash-in-history:" + type(e).__name__, desc, exp, repr(e)[:200])
+                    return False
+            if got != exp:
+                ctx.fail("as_circuit_matrix:history:%s-where-%s-expected" % (got, exp), desc,
+                         "step %d: %s for the current particles %s" % (n, exp, [list(p) for p in spec_particles(cur)] if ws else "inconsistent"),
+                         got)
+                return False
+            if got == "ok":
+                listed = [(F.index(p.field), p.index) for p in g.particles()]
+                if listed != [tuple(p) for p in spec_particles(cur)]:
+                    ctx.fail("particles:not-current-after-rebinding", desc, [list(p) for p in spec_particles(cur)], listed)
+                    return False
+                ref_gate = build_gate(cur, mk_fields(sizes))          # fresh object: no history
+                R = ref_embed(nw, ws, ref_gate.as_matrix())
+                D = dense(out)
+                if (D.shape != R.shape or not np.array_equal(D, R)) and \
+                        any(out is o or np.shares_memory(out.data, o.data) for o in scribbled):
+                    ctx.fail("as_circuit_matrix:returns-storage-of-a-matrix-handed-out-before-and-overwritten-by-the-caller", desc,
+                             "step %d: a matrix the caller owns (writing into it affects nothing)" % n,
+                             "the next call returns the overwritten entries")
+                    return False
+                if D.shape != R.shape or not np.array_equal(D, R):
+                    ctx.fail("as_circuit_matrix:not-the-current-gate-on-its-current-wires", desc,
+                             "step %d: as_matrix() of the gate as it is now on wires %s (x) 1" % (n, ws),
+                             "differs (matches an earlier state)" if any(
+                                 s_.shape == D.shape and np.array_equal(s_, D) for _, s_, _ in handed) else "differs")
+                    return False
+                if not handed_intact(n):
+                    return False
+                handed.append([out, D, n])
+                if collect is not None and raw is not None:
+                    collect.append((order, jcopy(cur), raw))
+        else:
+            raise ValueError(st)
+        if st[0] != "q" and not handed_intact(n):
+            return False
+    return True
+
+
 def oracle_permute(ctx, u, perm, desc):
     import qib
     try:
@@ -283,6 +531,160 @@ def oracle_permute(ctx, u, perm, desc):
         return None
     if not np.array_equal(out, ref_permute(u, perm)):
         ctx.fail("permute_gate_wires:not-conjugation-by-wire-permutation", desc, "u[sigma r, sigma c]", "differs")
+    return out
+
+
+# ----------------------------------------------------------------------------- histories on one gate object
+ONE_QUBIT = ("I", "X", "Y", "Z", "H", "S", "Sdg", "T", "Tdg", "Sx")
+
+
+def spec_mutations(rng, sub, allp, exact=False):
+    """every kind of mutation applicable to an object built from `sub` (one random instance of each kind)"""
+    k = sub[0]
+    p = lambda n=1: [list(x) for x in rng.sample(allp, n)]
+    th = lambda: rng.choice([x for x in range(-16, 17) if x]) / 8.0
+    if k in ONE_QUBIT:
+        return [["on1", p()[0]], ["attr_qubit", p()[0]]]
+    if k in ("Rx", "Ry", "Rz"):
+        return [["on1", p()[0]], ["attr_qubit", p()[0]], ["theta", th()]]
+    if k == "Rot":
+        return [["on1", p()[0]], ["attr_qubit", p()[0]], ["ntheta", [rng.randint(-8, 8) / 8.0 for _ in range(3)]]]
+    if k in ("Rxx", "Ryy", "Rzz"):
+        return [["theta", th()], ["q1", p()[0]], ["q2", p()[0]]]
+    if k == "iSwap":
+        a = p(2)
+        return [["on2", a[0], a[1]]]
+    if k == "Prep":
+        n = len(sub[2])
+        return [["onlist", p(n)], ["onargs", p(n)]] if n <= len(allp) else []
+    if k in ("Phase", "Gen"):
+        n = len(sub[2])
+        out = [["prtcl_inplace", rng.randrange(n), p()[0]]]
+        if n <= len(allp):
+            out += [["onlist", p(n)], ["onargs", p(n)]]
+        out.append(["phi", th()] if k == "Phase" else ["mat", mat_spec(rand_phase_perm(rng, 2 ** n))])
+        return out
+    if k == "C":
+        n = len(sub[1])
+        out = [["ctrl_state", [1 - b for b in sub[1]]], ["ctrl_state_inplace", rng.randrange(n)],
+               ["control_qubits_inplace", rng.randrange(n), p()[0]]]
+        if n <= len(allp):
+            out += [["set_control", p(n)], ["set_control_args", p(n)]]
+        q = p()[0]
+        out.append(["tgate", rng.choice([["Y", q], ["S", q]] if exact else [["Y", q], ["H", q], ["Rz", th(), q]])])
+        return out
+    if k == "Mux":
+        n = len(sub[1])
+        out = [["control_qubits_inplace", rng.randrange(n), p()[0]]]
+        if n <= len(allp):
+            out += [["set_control", p(n)], ["set_control_args", p(n)]]
+        # replace one target by another gate on the SAME particles (stays a valid multiplexer)
+        i = rng.randrange(len(sub[2]))
+        t = sub[2][i]
+        if t[0] in ONE_QUBIT:
+            out.append(["tgates_k", i, [rng.choice([x for x in ("X", "Y", "Z", "S") if x != t[0]]), jcopy(t[1])]])
+        return out
+    raise ValueError(sub)
+
+
+def retarget_all(rng, spec, path, allp):
+    """steps that move EVERY target of the multiplexer at `path` to one new particle list (so it stays consistent)"""
+    sub = sub_spec(spec, path)
+    t0 = sub[2][0]
+    if t0[0] not in ONE_QUBIT:
+        return None
+    q = list(rng.choice(allp))
+    return [["m", path + [i], [rng.choice(["on1", "attr_qubit"]), q]] for i in range(len(sub[2]))]
+
+
+def gate_histories(rng, thorough):
+    """(sizes, spec, steps): scripted = every mutation kind on every reachable object of every base gate, between
+    two queries with the SAME field list, then a different list, then the first again; + random histories"""
+    out = []
+    gen2 = mat_spec(rand_phase_perm(rng, 4))
+    for sizes in ([2, 3], [1, 2, 2]) if thorough else ([2, 3],):
+        sizes = list(sizes)
+        nf = len(sizes)
+        allp = [(fi, i) for fi, n in enumerate(sizes) for i in range(n)]
+        orders = [list(o) for o in itertools.permutations(range(nf))]
+        A, B, C_, D = ((0, 0), (0, 1), (1, 0), (1, 2)) if nf == 2 else ((0, 0), (1, 0), (1, 1), (2, 1))
+        bases = [
+            ["X", A], ["Rz", 0.5, B], ["Rot", [0.25, -0.5, 0.75], C_], ["Rzz", 0.375, A, C_], ["Rxx", -0.25, D, B],
+            ["iSwap", C_, A], ["Phase", 0.25, [B, D]], ["Gen", gen2, [D, A]], ["Prep", [0.5, 0.25, -0.125, 0.125], [C_, B]],
+            ["C", [1], [A], ["X", D]], ["C", [0], [D], ["Rz", -0.75, A]], ["C", [1, 0], [C_, A], ["Y", B]],
+            ["C", [1], [B], ["Gen", gen2, [D, A]]], ["C", [1], [A], ["C", [0], [C_], ["Y", D]]],
+            ["C", [0], [D], ["iSwap", A, B]], ["C", [1], [C_], ["Rzz", 0.5, B, A]],
+            ["Mux", [A], [["X", D], ["S", D]]], ["Mux", [D], [["C", [1], [B], ["X", A]], ["C", [0], [B], ["Z", A]]]],
+            ["C", [1], [B], ["Mux", [A], [["Y", C_], ["Z", C_]]]],
+        ]
+        for base in bases:
+            base = jcopy(base)
+            for path in spec_paths(base):
+                muts = [[["m", path, mt]] for mt in spec_mutations(rng, sub_spec(base, path), allp)]
+                if sub_spec(base, path)[0] == "Mux":
+                    r = retarget_all(rng, base, path, allp)
+                    if r:
+                        muts.append(r)
+                for ms in muts:
+                    o1 = rng.choice(orders)
+                    o2 = rng.choice([o for o in orders if o != o1])
+                    pat = rng.randrange(3)
+                    if pat == 0:
+                        steps = [["q", o1]] + ms + [["q", o1], ["q", o2], ["q", o1]]
+                    elif pat == 1:
+                        steps = [["q", o1], ["q", o2]] + ms + [["q", o2], ["q", o1]]
+                    else:
+                        steps = [["q", o1], ["q", o1], ["scribble", 0]] + ms + [["q", o1], ["scribble", 2], ["q", o1], ["q", o2]]
+                    out.append((sizes, base, steps))
+    # random histories
+    for _ in range(400 if thorough else 120):
+        sizes = rng.choice([[3], [4], [2, 2], [1, 3], [2, 1, 2]])
+        nf = len(sizes)
+        allp = [(fi, i) for fi, n in enumerate(sizes) for i in range(n)]
+        orders = [list(o) for k in range(max(1, nf - 1), nf + 1) for o in itertools.permutations(range(nf), k)]
+        ps = [list(x) for x in rng.sample(allp, 3)]
+        kind = rng.randrange(8)
+        if kind == 0:
+            spec = ["C", [rng.randint(0, 1)], [ps[0]], [rng.choice(["X", "Y", "S", "H"]), ps[1]]]
+        elif kind == 1:
+            spec = ["C", [rng.randint(0, 1)], [ps[0]], ["Rz", rng.randint(-16, 16) / 8.0, ps[1]]]
+        elif kind == 2:
+            spec = ["C", [rng.randint(0, 1), rng.randint(0, 1)], [ps[0], ps[1]], [rng.choice(["X", "Z"]), ps[2]]]
+        elif kind == 3:
+            spec = ["C", [rng.randint(0, 1)], [ps[0]], ["C", [rng.randint(0, 1)], [ps[1]], ["Y", ps[2]]]]
+        elif kind == 4:
+            spec = ["Mux", [ps[0]], [[rng.choice(["X", "Y"]), ps[1]], [rng.choice(["Z", "S"]), ps[1]]]]
+        elif kind == 5:
+            spec = ["Gen", mat_spec(rand_phase_perm(rng, 4)), [ps[0], ps[1]]]
+        elif kind == 6:
+            spec = ["C", [1], [ps[0]], ["Gen", mat_spec(rand_phase_perm(rng, 4)), [ps[1], ps[2]]]]
+        else:
+            spec = [["Rzz", 0.5, ps[0], ps[1]], ["iSwap", ps[0], ps[1]], ["Phase", 0.25, [ps[0], ps[1]]], ["Rx", 0.5, ps[0]]][rng.randrange(4)]
+        cur = jcopy(spec)
+        last = rng.choice(orders)
+        steps = [["q", last]]
+        nq = 1
+        for _ in range(rng.randint(3, 9)):
+            r = rng.random()
+            if r < 0.45:
+                path = rng.choice(spec_paths(cur))
+                sub = sub_spec(cur, path)
+                if sub[0] == "Mux" and rng.random() < 0.5:
+                    ms = retarget_all(rng, cur, path, allp) or []
+                else:
+                    ms = [["m", path, rng.choice(spec_mutations(rng, sub, allp))]]
+                for m in ms:
+                    steps.append(m)
+                    cur = mutate_spec(cur, m[1], m[2])
+            elif r < 0.55:
+                steps.append(["scribble", rng.randrange(nq)])      # index among the matrices handed out (ignored if beyond)
+            else:
+                if rng.random() < 0.4:
+                    last = rng.choice(orders)
+                steps.append(["q", last])
+                nq += 1
+        steps.append(["q", last])
+        out.append((sizes, spec, steps))
     return out
 
 
@@ -298,15 +700,24 @@ def run(ctx):
         "(canonical CSR); csr_matrix((values,(rows,cols))) sums duplicate coordinates (proved not to occur); CPython iterates "
         "set(range(n)).difference(l) ascending (the theorems are stated for the ascending complement; the dense result does not "
         "depend on that order); numpy reshape is row-major and transpose(a, axes)[i] = a[j], j[axes[t]] = i[t]; Python ints are Z")
+    ctx.trusted.append(
+        "C04 histories: as_circuit_matrix of every class is 'guards; wires of particles(); _distribute_to_wires' without assignments "
+        "(translator) = the recomputing semantics `trace` of Qib.Embed.ObsModel for the view D(value of the gate object)(fields); "
+        "the harness mutates ONE live object (public mutators, attribute assignment, in-place list writes, on the object and on "
+        "objects reached through target_gate()/target_gates()) and compares every query with a gate built afresh from the value")
     ctx.assumes.append("field objects are compared by identity (Field defines no __eq__): field ids in the model are distinct integers")
     ctx.rules.append("dense non-symmetric Gaussian-integer G x ALL ordered selections of m<=3 distinct wires out of nw<=6 "
                      "(thorough: all m<=nw<=6) + random nw<=9; invalid wire lists; real gate objects over 1-3 fields in every "
                      "field order incl. unlisted fields; permute_gate_wires for all permutations n<=3 (thorough 4) + random. "
                      "every gate class the harness can build (26 spec kinds incl. 4-wire gates) at least once per run over 2-3 fields; "
                      "random selections of m=4..6 wires out of nw<=8 incl. fully descending ones. "
+                     "histories on one gate object: query as_circuit_matrix, apply each mutation kind (on/set_control/attribute "
+                     "assignment/in-place list write/parameters/ctrl_state/mat/tgate/tgates[k]) to each reachable object of 19 base "
+                     "gates, query again with the same and with another field list; random histories of 4-10 steps; the matrices "
+                     "handed out earlier must keep their entries and the caller overwriting them must not affect later queries. "
                      "non-trivial = wires not an ascending adjacent block starting at 0, or >=2 fields listed, or a non-identity "
                      "permutation, or a wire list the code must reject (repeated / out of range); CSR-conversion cases never count")
-    ctx.lib(["Embed/EmbedCheck", "Embed/WireProofs", "Embed/CsrProofs"])
+    ctx.lib(["Embed/EmbedCheck", "Embed/WireProofs", "Embed/CsrProofs", "Embed/HeapObs"])
     ok = ctx.translate("GenEmbed", gen_embed.generate)
     if ok:
         ctx.props()
@@ -528,6 +939,40 @@ def run(ctx):
                         add("CMp2w %s %s %s" % (pairs(fl), ct.pair(ct.z(fi), ct.z(i)), ct.z(w)),
                             {"kind": "mp2w", "fields": fl, "p": (fi, i)}, len(order) > 1)
 
+
+    # ------------------------------------------------------------ (B') histories on one gate object
+    # the register-level matrix is a function of the gate's CURRENT state: query, re-bind / re-parametrise the object or
+    # an object reachable through target_gate()/target_gates(), query again (same and other field lists); matrices
+    # handed out earlier keep their entries, and a caller overwriting them does not disturb later queries
+    n_acm_hist = 0
+    for sizes, spec, steps in gate_histories(rng, ctx.thorough):
+        desc = {"kind": "gate_history", "sizes": sizes, "spec": spec, "steps": steps}
+        got = []
+        oracle_gate_history(ctx, sizes, spec, steps, desc, collect=got)
+        ctx.count("gate_history")
+        ctx.count("gate_history_" + spec[0])
+        for st in steps:
+            ctx.count("gate_history_step_" + (st[0] if st[0] != "m" else "m_" + st[2][0]))
+        ctx.nontriv({"kind": "gate_history", "spec": spec[0], "steps": [st[0] if st[0] != "m" else st[2][0] for st in steps]})
+        if sampled.get("gate_history", 0) < 3 and len(steps) >= 5:
+            sampled["gate_history"] = sampled.get("gate_history", 0) + 1
+            ctx.sample(desc, cap=24)
+        # the model (a function of the current particles and matrix) on the states reached by the history
+        for order, cur, raw in got[1:]:
+            if n_acm_hist >= (300 if ctx.thorough else 90) or sum(sizes[i] for i in order) > 5:
+                continue
+            gm = build_gate(cur, mk_fields(sizes)).as_matrix()
+            if not is_gauss_int(gm) or gm.shape[0] > 8:
+                continue
+            n_acm_hist += 1
+            g_, indptr, indices, data = csr_parts(gm)
+            fl = [(fi, sizes[fi]) for fi in order]
+            prt = [tuple(p) for p in spec_particles(cur)]
+            add("CAcm %s %s %s %s %s %s %s %s" % (
+                pairs(fl), pairs(prt), ct.z(gm.shape[0]), zlist(indptr), zlist(indices), zilist(data),
+                ct.z(2), triples_term(raw)),
+                {"kind": "acm-after-history", "sizes": sizes, "order": order, "spec": cur[0], "particles": prt})
+
     # ------------------------------------------------------------ (C) permute_gate_wires
     perms = []
     for n in range(1, (4 if ctx.thorough else 3) + 1):
@@ -561,6 +1006,8 @@ def replay(ctx, data):
         oracle_distribute(ctx, inp["nw"], inp["ws"], G, inp)
     elif k == "gate":
         oracle_gate(ctx, inp["sizes"], inp["order"], inp["spec"], inp)
+    elif k == "gate_history":
+        oracle_gate_history(ctx, inp["sizes"], inp["spec"], inp["steps"], inp)
     elif k == "mp2w":
         import qib
         F = mk_fields(inp["sizes"])
